@@ -350,10 +350,17 @@ impl Prop for C17 {
 			if rng.chance(1, 25) {
 				// a few larger files (tens of KiB)
 				let len = if rng.bool() { 10_000 + rng.below(60_000) as u32 } else { *rng.pick(&[65_530u32, 65_536, 65_537, 65_545, 66_000, 70_000, 100_000, 140_000]) };
-				spec.ops.push(container::Op::Blob { len, seed: rng.next_u64(), compressible: rng.bool() });
-				if spec.schema != crate::ast::Ty::Bytes {
-					spec.ops.pop();
+				// (blobs need the `bytes` schema: the workload is replaced, the file-level settings are kept)
+				spec.schema = crate::ast::Ty::Bytes;
+				spec.ops = vec![
+					container::Op::Blob { len: rng.below(40) as u32, seed: rng.next_u64(), compressible: true },
+					container::Op::Blob { len, seed: rng.next_u64(), compressible: rng.bool() },
+				];
+				if rng.bool() {
+					spec.ops.push(container::Op::FinishBlock);
 				}
+				spec.ops.push(container::Op::Blob { len: 100 + rng.below(9000) as u32, seed: rng.next_u64(), compressible: rng.bool() });
+				spec.via_write_all = false;
 			}
 			spec.end = End::IntoInner;
 			FileSrc::Crate(spec)
